@@ -92,3 +92,14 @@ func perByteValid(s string) string {
 	}
 	return b.String()
 }
+
+// hasExact: plain string membership. (fosite.Arguments.Has compares case-insensitively; an oracle must not borrow
+// the implementation's helper, and scope / audience values are case-sensitive.)
+func hasExact(l []string, s string) bool {
+	for _, x := range l {
+		if x == s {
+			return true
+		}
+	}
+	return false
+}
